@@ -46,7 +46,11 @@ EvalE(e)   == CASE e.k = "num"  -> e.v
                 [] e.k = "aff"  -> RAdd3(RMul(e.a, MV(e)), RMul(e.b, FV(e)), e.c)
                 [] e.k = "prod" -> RMul(MV(e), FV(e))
 \* homodyne commands carry <<angle, select>> as num expressions; their outcome is the selected value
-Concrete(c) == [name |-> c.name, p |-> [i \in DOMAIN c.e |-> EvalE(c.e[i])], modes |-> c.modes, dag |-> c.dag]
+\* a loss channel is written with its energy transmission T, the kernel takes the amplitude factor sqrt(T): the pool only uses
+\* expressions whose values are the squares below
+SqrtOf(v) == CASE v = Q(1, 4) -> Q(1, 2) [] v = One -> One [] v = Q(16, 25) -> Q(4, 5) [] OTHER -> v
+Concrete(c) == [name |-> c.name, p |-> [i \in DOMAIN c.e |-> IF c.name = "LossChannel" /\ c.e[i].k # "num" THEN SqrtOf(EvalE(c.e[i])) ELSE EvalE(c.e[i])],
+                modes |-> c.modes, dag |-> c.dag]
 
 \* ---- command pools ------------------------------------------------------------------------------------------
 PoolC10 == << Cmd("MeasureHomodyne", <<ENum(A0), ENum(Q(1, 2))>>, <<0>>, FALSE),
@@ -60,6 +64,9 @@ PoolC10 == << Cmd("MeasureHomodyne", <<ENum(A0), ENum(Q(1, 2))>>, <<0>>, FALSE),
               \* must not cancel the pair because of the value x happens to be bound to
               Cmd("Dgate", <<ENum(Q(-1, 2)), ENum(a345)>>, <<1>>, FALSE),
               Cmd("Sgate", <<ENum(Q(4, 3)), ENum(A0)>>, <<0>>, FALSE),
+              \* a channel with a symbolic transmission T = 11/20 - 3 x / 5 (= 1/4 for x = 1/2, = 1 for x = -3/4): two of them in a
+              \* row are merged by the optimiser into a symbolic product
+              Cmd("LossChannel", <<EAff(Zero, -1, Q(-3, 5), Q(11, 20))>>, <<1>>, FALSE),
               Cmd("BSgate", <<ENum(a345), ENum(APi2)>>, <<0, 1>>, FALSE),
               Cmd("MeasureHomodyne", <<ENum(a345), ENum(Q(-1, 2))>>, <<1>>, FALSE),
               Cmd("Zgate", <<EAff(Q(1, 2), 1, Zero, Q(1, 4))>>, <<0>>, FALSE) >>
